@@ -14,3 +14,9 @@ TEXT["C20"] = {
     "design_ref": "DESIGN.md section 3, C20",
     "level_note": "Fields are discovered by reflection (func-typed fields ending in '_'); identity of arguments/results is judged with sentinels; NewError's (methodName, repo) arguments are not asserted.",
 }
+TEXT["C17"] = {
+    "technique": "property-based testing (rapid): grammar-directed and mutated reference strings against an independent reference decomposition; round-trip of valid parts; differential of the HTTP router against the validity predicates; native go fuzz target FuzzParse in the thorough tier",
+    "level_text": "Generated-input search with three oracles: (1) for arbitrary strings every predicate is total and equals a hand-written matcher of the documented grammar, Parse succeeds iff an independent decomposition into valid parts exists and returns exactly it, and String() reproduces the input; (2) valid parts with a host print to a string that parses back to the same parts; (3) requests with arbitrary repository / tag / digest strings reach the server's backend iff the predicates accept them, with identical arguments. Sampling with boundary-weighted generators (lengths 126-131, 253-258, empty components); absence is not established.",
+    "design_ref": "DESIGN.md section 3, C17",
+    "level_note": "Trusted: the transcription of the documented grammar into the reference matchers; the set of registered digest algorithms (sha256/384/512); router observed via ociserver.ServeHTTP + recorder.",
+}
